@@ -482,7 +482,8 @@ func runWriterOnce(p *WProg, fault *WFault, id string) (evs []Ev, nops map[int]i
 	select {
 	case out := <-done:
 		evs = append(evs, out...)
-	case <-time.After(20 * time.Second):
+	case <-time.After(Watchdog(20 * time.Second)):
+		NoteHang()
 		evs = append(evs, Ev{"e": "HANG"})
 	}
 	nops = map[int]int{}
